@@ -353,8 +353,15 @@ func (x *Exec) step(st *State) []*State {
 		f.vals[i] = c
 		f.pc++
 	case *ssa.Range:
-		// map iteration: remember the map; Next yields nondeterministic keys
-		f.vals[i] = x.val(st, f, i.X)
+		// map iteration: remember the map and the (ghost) set of keys already visited
+		if _, isMap := i.X.Type().Underlying().(*types.Map); !isMap {
+			bail("range over %s", i.X.Type())
+		}
+		kt, _ := mapKV(i.X.Type())
+		vis := reg.fresh("visited")
+		reg.declare(vis, fmt.Sprintf("(declare-const %s (Array %s Bool))", vis, keySort(kt)))
+		st.asserts = append(st.asserts, fmt.Sprintf("(= %s ((as const (Array %s Bool)) false))", vis, keySort(kt)))
+		f.vals[i] = RangeV{M: x.val(st, f, i.X).(Sc).T, Visited: vis}
 		f.pc++
 	case *ssa.Next:
 		f.vals[i] = x.next(st, f, i)
@@ -742,6 +749,7 @@ func (x *Exec) mapGet(st *State, m Term, kt, vt types.Type, key Term) Val {
 	var ls []Term
 	zs := st.flatten(zeroVal(vt))
 	for k, l := range leavesOf(vt) {
+		markRef("MV|"+fam+"|"+l.Path, l)
 		v := st.load("MV|"+fam+"|"+l.Path, []Sort{SInt, keySort(kt)}, l.Sort, []Term{m, key})
 		ls = append(ls, Ite(has, v, zs[k]))
 	}
@@ -793,6 +801,7 @@ func (x *Exec) mapStore(st *State, m Term, kt, vt types.Type, key Term, v Val) {
 	st.store("MD|"+fam, []Sort{SInt, ks}, SBool, []Term{m, key}, TTrue)
 	ls := st.flatten(v)
 	for k, l := range leavesOf(vt) {
+		markRef("MV|"+fam+"|"+l.Path, l)
 		st.store("MV|"+fam+"|"+l.Path, []Sort{SInt, ks}, l.Sort, []Term{m, key}, ls[k])
 	}
 }
@@ -808,14 +817,24 @@ func (x *Exec) next(st *State, f *Frame, i *ssa.Next) Val {
 		bail("range over string")
 	}
 	kt, vt := mapKV(rng.X.Type())
-	m := x.val(st, f, rng).(Sc).T
+	rv := x.val(st, f, rng).(RangeV)
+	m := rv.M
 	ok := reg.freshConst("next_ok", SBool)
 	k := st.freshVal(kt, "next_k")
 	key := x.mapKey(st, k)
-	// ok ==> key in map ; the value is the map's value at key
-	st.assume(Implies(ok, x.mapHas(st, m, kt, vt, key)))
+	ks := keySort(kt)
+	// ok ==> key is in the map and not yet visited; it becomes visited.
+	// !ok ==> every key of the map has been visited. (The map is assumed not to change during the iteration.)
+	st.assume(Implies(ok, And(x.mapHas(st, m, kt, vt, key), Not(Term{fmt.Sprintf("(select %s %s)", rv.Visited, key.S), SBool}))))
+	dom := st.heap("MD|"+mapFam(kt, vt), []Sort{SInt, ks}, SBool)
+	q := reg.fresh("qk")
+	st.asserts = append(st.asserts, fmt.Sprintf("(=> (not %s) (forall ((%s %s)) (! (=> (select (select %s %s) %s) (select %s %s)) :pattern ((select %s %s)))))", ok.S, q, ks, dom.Name, m.S, q, rv.Visited, q, rv.Visited, q))
+	nv := reg.fresh("visited")
+	reg.declare(nv, fmt.Sprintf("(declare-const %s (Array %s Bool))", nv, ks))
+	st.asserts = append(st.asserts, fmt.Sprintf("(= %s (ite %s (store %s %s true) %s))", nv, ok.S, rv.Visited, key.S, rv.Visited))
+	f.vals[rng] = RangeV{M: m, Visited: nv}
 	v := x.mapGet(st, m, kt, vt, key)
-	x.noteLib("map iteration: Next yields an arbitrary present key; termination/visited-set not modelled")
+	x.noteLib("map iteration: Next yields a present, not yet visited key; when it reports the end every key has been visited (the map is not modified during the iteration)")
 	return TupleV{[]Val{Sc{ok}, k, v}}
 }
 
@@ -1152,6 +1171,26 @@ func (x *Exec) havocLoop(st *State, f *Frame, lp int) {
 		f.vals[phi] = st.freshVal(phi.Type(), "loop_"+phi.Comment)
 		st.assumeAllocated(f.vals[phi])
 	}
+	// visited sets of map iterations advanced inside the loop
+	for v, val := range f.vals {
+		rv, ok := val.(RangeV)
+		if !ok {
+			continue
+		}
+		rng := v.(*ssa.Range)
+		inLoop := false
+		for _, r := range *rng.Referrers() {
+			if nx, ok := r.(*ssa.Next); ok && li.bodies[lp][nx.Block()] {
+				inLoop = true
+			}
+		}
+		if inLoop {
+			kt, _ := mapKV(rng.X.Type())
+			nv := reg.fresh("visited")
+			reg.declare(nv, fmt.Sprintf("(declare-const %s (Array %s Bool))", nv, keySort(kt)))
+			f.vals[v] = RangeV{M: rv.M, Visited: nv}
+		}
+	}
 	if dr.all {
 		st.havocAll("loop body with uncontracted call")
 	} else {
@@ -1195,6 +1234,24 @@ func (x *Exec) havocLoop(st *State, f *Frame, lp int) {
 			}
 		}
 	}
+	// references held in the havocked families denote objects that exist
+	if !dr.all {
+		for _, fam := range famsSorted(dr.written) {
+			if _, ok := refFams.Load(fam); !ok {
+				continue
+			}
+			h := st.heaps[fam]
+			if h == nil || h.Elem != SInt {
+				continue
+			}
+			switch len(h.Dims) {
+			case 1:
+				st.asserts = append(st.asserts, fmt.Sprintf("(forall ((r Int)) (! (or (= (select %s r) 0) (select %s (select %s r))) :pattern ((select %s r))))", h.Name, st.alloc.Name, h.Name, h.Name))
+			case 2:
+				st.asserts = append(st.asserts, fmt.Sprintf("(forall ((r Int) (k %s)) (! (or (= (select (select %s r) k) 0) (select %s (select (select %s r) k))) :pattern ((select (select %s r) k))))", h.Dims[1], h.Name, st.alloc.Name, h.Name, h.Name))
+			}
+		}
+	}
 	if dr.clock || dr.all {
 		st.advanceClock()
 	}
@@ -1214,6 +1271,17 @@ func (x *Exec) loopEnv(st *State, f *Frame, lp int) *Env {
 	env.frame = f
 	li := x.eng.loops(f.fn)
 	hdr := li.hdrOf[lp]
+	// the visited set of the (single) map iteration of this loop: visited(k)
+	for v, val := range f.vals {
+		if rv, ok := val.(RangeV); ok {
+			rng := v.(*ssa.Range)
+			for _, r := range *rng.Referrers() {
+				if nx, ok := r.(*ssa.Next); ok && li.bodies[lp][nx.Block()] {
+					env.visited = rv.Visited
+				}
+			}
+		}
+	}
 	// $i@k of every loop whose header has been entered
 	for k, h := range li.hdrOf {
 		for _, in := range h.Instrs {
@@ -1385,4 +1453,13 @@ func classifyIdx(t Term, c0 int, dr *dryRun) string {
 		}
 	}
 	return "stable"
+}
+
+func famsSorted(m map[string]*HeapVer) []string {
+	var out []string
+	for k := range m {
+		out = append(out, k)
+	}
+	sort.Strings(out)
+	return out
 }
